@@ -107,6 +107,12 @@ Proof.
   destruct (f_uid f =? u); reflexivity.
 Qed.
 
+Lemma map_uid_sethdr : forall u h fs, map f_uid (map (sethdr1 u h) fs) = map f_uid fs.
+Proof.
+  intros u h fs. rewrite map_map. apply map_ext. intros f. unfold sethdr1.
+  destruct (f_uid f =? u); reflexivity.
+Qed.
+
 (* ---- upd_nth ---- *)
 Lemma upd_nth_length : forall A (l : list A) i x, length (upd_nth l i x) = length l.
 Proof. intros A l. induction l as [| y r IH]; intros [| i] x; cbn; auto. Qed.
